@@ -7,7 +7,7 @@ D=$(mktemp -d /tmp/cmv-mut-XXXXXX)
 trap 'rm -rf "$D"' EXIT
 mkdir -p "$D/repo"
 cp -r /repo/src /repo/pyproject.toml "$D/repo/"
-(cd "$D/repo" && patch -p1 -s < "$PATCH")
+ln -s /repo/tests "$D/repo/tests"; (cd "$D/repo" && patch -p1 -s < "$PATCH")
 cd "$(dirname "$0")/.."
 set +e
 CMV_REPO="$D/repo" CMV_EVIDENCE_DIR="$D/evidence" ./check "$ID" "$TIER" 2>&1 | grep -E "VIOLATION|KNOWN-FINDING|signature:|HARNESS|cases," | cut -c1-300
